@@ -353,6 +353,12 @@ impl Server {
         })
     }
     
+    /// Shared handles for the simulator's read-only oracles (feature `verif`).
+    #[cfg(feature = "verif")]
+    pub fn verif_handles(&self) -> (Arc<StorageEngine>, Arc<BlockingManager>, Arc<PubSubManager>, Option<Arc<RdbEngine>>) {
+        (Arc::clone(&self.storage), Arc::clone(&self.blocking_manager), Arc::clone(&self.pubsub), self.rdb_engine.clone())
+    }
+    
     /// Set RDB engine for persistence
     pub fn set_rdb_engine(&mut self, rdb_engine: Arc<RdbEngine>) {
         self.rdb_engine = Some(rdb_engine);
@@ -402,6 +408,9 @@ impl Server {
             
             // Clean up closed connections
             self.cleanup_connections()?;
+            
+            #[cfg(feature = "verif")]
+            crate::verif::yield_point(crate::verif::site::TURN, did_work as u64, 0);
             
             // Adaptive sleep to balance CPU usage and responsiveness
             if did_work {
